@@ -40,7 +40,7 @@ class Graph:
         self.F = F
         self.bodies = {}      # owner path -> list of (body path, mir)
         for b in F.doc["bodies"]:
-            if b.get("mir"):
+            if b.get("mir") and not b.get("mir_inlined"):
                 self.bodies.setdefault(owner_of(b["path"]), []).append((b["path"], b["mir"], b))
         self.local = set(self.bodies)
         self._edges = {}
